@@ -301,6 +301,8 @@ func init() {
 	addTable(&tableSpec{name: "free-virtual-ips", rowPkg: statePkg, rowType: "FreeVirtualIP", valueRow: true,
 		keyFields: []string{"IsCounter"}, keyLower: []bool{false},
 		indexes: map[string]indexSpec{"counter": {kind: "booleq", field: "IsCounter"}}})
+	addTable(&tableSpec{name: "feature-gate-policy", rowPkg: structsPkg, rowType: "FeatureGatePolicy", single: true})
+	addTable(&tableSpec{name: "feature-gate-status", rowPkg: structsPkg, rowType: "FeatureGateStatus", single: true})
 	addTable(&tableSpec{name: "sessions", rowPkg: structsPkg, rowType: "Session", keyField: "ID", lower: true,
 		indexes: map[string]indexSpec{"node": {kind: "fieldeq", field: "Node", lower: true}, "id_prefix": {kind: "prefix"}}})
 }
